@@ -492,9 +492,6 @@ func (r *Resolver) resolveOne(ctx context.Context, name, typ string) ([]any, err
 		cache.Remove(key)
 		return nil, err
 	}
-	if len(res) == 0 {
-		ttl = 300
-	}
 	v.expiration = timeNow().Add(time.Second * time.Duration(ttl))
 	v.result = res
 	return res, nil
@@ -526,8 +523,10 @@ func (r *Resolver) resolveOneNoCache(ctx context.Context, name, typ string) ([]a
 	var res []any
 	var ttl uint32
 	want := strings.TrimSuffix(name, ".")
-	for _, a := range result.Answer {
-		if ttl == 0 || ttl > a.TTL {
+	for i, a := range result.Answer {
+		// The answer can be cached for as long as its shortest lived
+		// record. A TTL of zero means that it must not be cached.
+		if i == 0 || ttl > a.TTL {
 			ttl = a.TTL
 		}
 		name := strings.TrimSuffix(a.Name, ".")
@@ -538,6 +537,11 @@ func (r *Resolver) resolveOneNoCache(ctx context.Context, name, typ string) ([]a
 			want = strings.TrimSuffix(a.Data.(string), ".")
 			continue
 		}
+	}
+	if len(result.Answer) == 0 {
+		// Nothing in the answer section says how long its absence can
+		// be remembered.
+		ttl = 300
 	}
 	return res, ttl, nil
 }
